@@ -3,6 +3,7 @@
  */
 
 #include <inttypes.h>
+#include <stdlib.h>
 #include <errno.h>
 
 #include <stdio.h>
@@ -62,17 +63,21 @@ extern int mpt_dispatch_hash(MPT_STRUCT(dispatch) *disp, MPT_STRUCT(event) *ev)
 	}
 	/* need aligned data */
 	else {
-		char buf[128];
-		if ((size_t) len > sizeof(buf)) {
+		char buf[128], *tmp = buf;
+		/* large commands need temporary storage, same as continous data there is no length limit */
+		if ((size_t) len > sizeof(buf) && !(tmp = malloc(len))) {
 			return MPT_event_fail(ev, MPT_ERROR(MissingBuffer), MPT_tr("large unaligned text command"));
 		}
-		if (mpt_message_read(&msg, len, buf) != (size_t) len) {
+		if (mpt_message_read(&msg, len, tmp) != (size_t) len) {
 			MPT_ABORT("conflicting message length");
 		}
-		if (!mt.arg && !buf[len-1]) {
+		if (!mt.arg && !tmp[len-1]) {
 			--len;
 		}
-		ev->id = mpt_hash(buf, len);
+		ev->id = mpt_hash(tmp, len);
+		if (tmp != buf) {
+			free(tmp);
+		}
 	}
 	/* execute matching command */
 	if ((cmd = mpt_command_get(&disp->_d, ev->id))) {
